@@ -58,3 +58,23 @@ Proof. exact tie_execute_all. Qed.
 Check C15_source_execute : forall t f, TInv t -> w_execute Om (zabs t) (wabs t) f = Some (wres (execute t f)).
 Print Assumptions C15_source_execute.
 
+From Avt Require Import Proofs.C15Run.
+(** history level, unconditional (Proofs/C15Run.v) *)
+(** every control function marks every row it changes - the ghost invariant `DInv v0` (a row whose flag is clear equals row-for-row the reference view v0) is preserved by `execute`, with no side premise *)
+Theorem C15_execute_unconditional : forall v0 t f t', TInv t -> DInv v0 t -> execute t f = Ok t' -> DInv v0 t'.
+Proof. exact C15_execute_uncond. Qed.
+Check C15_execute_unconditional : forall v0 t f t', TInv t -> DInv v0 t -> execute t f = Ok t' -> DInv v0 t'.
+Print Assumptions C15_execute_unconditional.
+
+(** along EVERY history of Feed / Flush / Resize operations from every fresh terminal, no step panics and at each reporting call (Flush = feed_str, Resize) every row NOT in the returned list is cell-for-cell what it was at the previous report (for the first report the reference is arbitrary: every row is reported) *)
+Theorem C15_histories : forall v0 c r l ops, 1 <= c -> 1 <= r -> Forall op_ok ops -> reports_sound_strict v0 (vt_new c r l) ops.
+Proof. exact C15_run_strict. Qed.
+Check C15_histories : forall v0 c r l ops, 1 <= c -> 1 <= r -> Forall op_ok ops -> reports_sound_strict v0 (vt_new c r l) ops.
+Print Assumptions C15_histories.
+
+(** the statement between two consecutive reports, spelled out: the view right after report o1 is the reference for report o2 *)
+Theorem C15_between_two_reports : forall c r l pre o1 cs o2 v1 v2 v3 out, 1 <= c -> 1 <= r -> Forall op_ok pre -> op_ok o1 -> op_ok o2 -> is_report o1 -> is_report o2 -> runM (vt_new c r l) (pre ++ [o1]) = Ok v1 -> runM v1 (map Feed cs) = Ok v2 -> stepM v2 o2 = Ok (v3, out) -> holds_C15 (tview (vterm v1)) v3 (o_lines out) = true.
+Proof. exact C15_between_reports. Qed.
+Check C15_between_two_reports : forall c r l pre o1 cs o2 v1 v2 v3 out, 1 <= c -> 1 <= r -> Forall op_ok pre -> op_ok o1 -> op_ok o2 -> is_report o1 -> is_report o2 -> runM (vt_new c r l) (pre ++ [o1]) = Ok v1 -> runM v1 (map Feed cs) = Ok v2 -> stepM v2 o2 = Ok (v3, out) -> holds_C15 (tview (vterm v1)) v3 (o_lines out) = true.
+Print Assumptions C15_between_two_reports.
+
